@@ -2,6 +2,7 @@ package main
 
 import (
 	"fmt"
+	"go/token"
 	"go/types"
 	"sort"
 	"strings"
@@ -244,6 +245,7 @@ func c08(r *Report) {
 	})
 
 	r.Guard("C08.R3", "END_STREAM is never invented: the streamEnded argument of every Header call derives from a StreamEnded() flag or from the caller", func() {
+		endStreamOnLastFragmentRule(r)
 		for _, f := range w.Funcs("h2") {
 			for _, c := range calls(f) {
 				cc := c.Common()
@@ -322,6 +324,43 @@ func c08(r *Report) {
 					}
 				}
 				r.Decide("flow", fmt.Sprintf("(*M/h2.%s).send writes %s", tn, f.Name()), written, "the field reaches a Framer.Write* argument", "send does not write this field: the peer receives a frame without it", f.Pos())
+			}
+			// (c) byte payloads are owned by the queued frame: a frame can wait behind flow
+			// control while the reader goes on, and the reader's buffers (the Framer's read
+			// buffer, the relay's HPACK output buffer) are reused for the next frame
+			for i := 0; i < st.NumFields(); i++ {
+				f := st.Field(i)
+				ft := f.Type().String()
+				if ft != "[]byte" && ft != "[][]byte" {
+					continue
+				}
+				for _, s := range w.fieldStores(f) {
+					why := ""
+					if ft == "[]byte" {
+						why = notOwnedBytes(w, s.Val, 0)
+					} else {
+						for _, v := range resolveAll(s.Val) {
+							c, isC := v.(*ssa.Call)
+							if !isC || c.Call.StaticCallee() == nil || c.Call.StaticCallee().Blocks == nil {
+								why = "the chunk list does not come from a module function"
+								continue
+							}
+							for _, in := range instrs(c.Call.StaticCallee()) {
+								es, isSt := in.(*ssa.Store)
+								if !isSt || es.Val.Type().String() != "[]byte" {
+									continue
+								}
+								if _, isIA := es.Addr.(*ssa.IndexAddr); !isIA {
+									continue
+								}
+								if y := notOwnedBytes(w, es.Val, 0); y != "" {
+									why = fnName(c.Call.StaticCallee()) + ": " + y
+								}
+							}
+						}
+					}
+					r.Decide("flow", fmt.Sprintf("M/h2.%s.%s owns its bytes (%s)", tn, f.Name(), fnName(s.Parent())), why == "", "every stored payload is a fresh allocation filled by copy", "the queued frame keeps a slice of a buffer that is reused ("+why+"): a frame that waits behind flow control is overwritten by the next frame read or encoded, and the peer receives corrupted bytes", s.Pos())
+				}
 			}
 			// the expected writer is used
 			okW := false
@@ -475,6 +514,9 @@ func c08(r *Report) {
 	r.Guard("C08.R8", "frames queued behind flow control are still delivered, in frames the receiver accepts: every window credit is applied and wakes the queue; payload sizes respect the receiver's maximum frame size (same obligations as C09.R4/R5)", func() {
 		flowWakeRules(r)
 		frameSizeRules(r)
+		if swu := r.Use("h2", "relay.sendWindowUpdates"); swu != nil {
+			creditOnAllPathsRule(r, swu)
+		}
 		if emit := r.Use("h2", "outputBuffer.emitEligibleFrames"); emit != nil {
 			windowFitRules(r, emit)
 		}
@@ -511,4 +553,120 @@ func c08(r *Report) {
 		}
 		r.Decide("flow", "M/h2.forwardPreface: preface filled by io.ReadFull before the comparison", ok, "io.ReadFull into the compared buffer", "the compared buffer is not guaranteed to be completely read", fp.Pos())
 	})
+}
+
+// notOwnedBytes explains why the []byte value v may alias storage that is not
+// freshly allocated where it is built ("" when it is owned): a parameter, a
+// slice of one, an append onto one, the Bytes() of a buffer, a field.
+func notOwnedBytes(w *World, v ssa.Value, depth int) string {
+	if depth > 6 {
+		return "too deep"
+	}
+	for _, l := range resolveAll(v) {
+		switch x := l.(type) {
+		case *ssa.MakeSlice:
+		case *ssa.Alloc:
+		case *ssa.Const:
+		case *ssa.Slice:
+			if y := notOwnedBytes(w, x.X, depth+1); y != "" {
+				return y
+			}
+		case *ssa.Convert:
+			// []byte(string) allocates
+			if _, isStr := x.X.Type().Underlying().(*types.Basic); !isStr {
+				if y := notOwnedBytes(w, x.X, depth+1); y != "" {
+					return y
+				}
+			}
+		case *ssa.ChangeType:
+			if y := notOwnedBytes(w, x.X, depth+1); y != "" {
+				return y
+			}
+		case *ssa.Call:
+			if b, isB := x.Call.Value.(*ssa.Builtin); isB && b.Name() == "append" {
+				if y := notOwnedBytes(w, x.Call.Args[0], depth+1); y != "" {
+					return y
+				}
+				continue
+			}
+			if f := x.Call.StaticCallee(); f != nil && f.Blocks != nil && strings.HasPrefix(f.Pkg.Pkg.Path(), M) {
+				for _, ret := range returns(f) {
+					for _, rv := range ret.Results {
+						if rv.Type().String() == "[]byte" {
+							if y := notOwnedBytes(w, rv, depth+1); y != "" {
+								return fnName(f) + " returns " + y
+							}
+						}
+					}
+				}
+				continue
+			}
+			return "the result of " + calleeName(x)
+		case *ssa.Parameter:
+			return "parameter " + x.Name()
+		default:
+			return "value " + l.Name() + " of kind " + fmt.Sprintf("%T", l)
+		}
+	}
+	return ""
+}
+
+// endStreamOnLastFragmentRule: when (*relay).data cuts a payload into several
+// DATA frames, END_STREAM goes on the fragment after which nothing is left: the
+// flag stored in the queued frame is the caller's streamEnded together with an
+// emptiness test of the remainder that was sliced off for this fragment (not a
+// test made before cutting, which is wrong when the payload is an exact
+// multiple of the frame size). Shared by C08.R3 and C11.R5.
+func endStreamOnLastFragmentRule(r *Report) {
+	w := r.W
+	df := r.Use("h2", "relay.data")
+	if df == nil {
+		return
+	}
+	n := 0
+	for _, a := range allocsOf(df, M+"/h2.queuedDataFrame") {
+		for _, st := range litFieldStores(a)["endStream"] {
+			n++
+			sl := w.backSlice(st.Val, flowOpt{BinOps: true})
+			fromParam := anyIn(sl, func(v ssa.Value) bool { p, y := v.(*ssa.Parameter); return y && p.Type().String() == "bool" })
+			// an emptiness comparison whose subject is len(<slice expression>)
+			onRest := false
+			for v := range sl {
+				b, y := v.(*ssa.BinOp)
+				if !y || (b.Op != token.EQL && b.Op != token.NEQ && b.Op != token.LEQ && b.Op != token.GTR) {
+					continue
+				}
+				for _, side := range []ssa.Value{b.X, b.Y} {
+					c, isC := unwrapConv(side).(*ssa.Call)
+					if !isC {
+						continue
+					}
+					if bi, isB := c.Call.Value.(*ssa.Builtin); !isB || bi.Name() != "len" {
+						continue
+					}
+					for _, l := range resolveAll(c.Call.Args[0]) {
+						if sx, isS := l.(*ssa.Slice); isS && sx.Low != nil {
+							onRest = true
+						}
+					}
+				}
+			}
+			// every boolean leaf is accounted for: no other condition (a test made before the cut)
+			other := anyIn(sl, func(v ssa.Value) bool {
+				b, y := v.(*ssa.BinOp)
+				if !y {
+					return false
+				}
+				switch b.Op {
+				case token.LSS, token.GEQ:
+					return true
+				}
+				return false
+			})
+			r.Decide("flow", "(*M/h2.relay).data: END_STREAM goes on the fragment that leaves nothing behind", fromParam && onRest && !other, "endStream = streamEnded && len(rest) == 0, rest being what remains after this fragment was cut off", "the END_STREAM flag of a fragment is decided by something else than the emptiness of the remainder (a size comparison made before cutting): a payload that fills its last frame exactly is sent without END_STREAM and the stream never ends", st.Pos())
+		}
+	}
+	if n == 0 {
+		r.Undecided("(*M/h2.relay).data: endStream of the queued frame", "UNRESOLVED")
+	}
 }
